@@ -23,7 +23,7 @@ import (
 
 func ruleR05h(c *Ctx) {
 	const rule = "R05h"
-	pending := c.MustField(rule, pkgBatching, "Batcher", "pending")
+	pending := c.MustFieldLike(rule, pkgBatching, "Batcher", "pending", func(t types.Type) bool { _, ok := t.Underlying().(*types.Slice); return ok })
 	items := c.MustField(rule, pkgBatching, "batcherJob", "items")
 	if pending == nil || items == nil {
 		return
@@ -281,6 +281,8 @@ func ruleR05h(c *Ctx) {
 						switch {
 						case keptKind == "fresh" && hk == "whole":
 						case keptKind == "suffix" && hk == "prefix" && sameBound(keptK, hK):
+						case keptKind == "fresh" && hk == "prefix" && boundIsWholeLength(st, hK, pending):
+							// `head := q[:n]; if n == len(q) { q = nil }`: under the guard the prefix is the whole list
 						case keptKind == "fresh" && hk == "prefix":
 							verdict, msg = Violated, "the batch is a prefix of pending but the rest is discarded: the entries behind the batch are never persisted"
 						case keptKind == "emptied-in-place" && (hk == "whole" || hk == "prefix"):
@@ -337,6 +339,68 @@ func cfgReaches(a, b *ssa.BasicBlock) bool {
 			return true
 		}
 		work = append(work, x.Succs...)
+	}
+	return false
+}
+
+// boundIsWholeLength: the store is executed only where `k == len(pending)` holds (it is dominated by the true edge
+// of that comparison, or by the false edge of `k != len(pending)` / `k < len(pending)`).
+func boundIsWholeLength(st *ssa.Store, k ssa.Value, pending *types.Var) bool {
+	isLenOfPending := func(v ssa.Value) bool {
+		call, ok := v.(*ssa.Call)
+		if !ok {
+			return false
+		}
+		bi, ok := call.Call.Value.(*ssa.Builtin)
+		if !ok || bi.Name() != "len" || len(call.Call.Args) != 1 {
+			return false
+		}
+		_, isP := fieldRead(call.Call.Args[0], pending)
+		return isP
+	}
+	fn := st.Parent()
+	for _, b := range fn.Blocks {
+		ifi, ok := b.Instrs[len(b.Instrs)-1].(*ssa.If)
+		if !ok {
+			continue
+		}
+		cmp, ok := ifi.Cond.(*ssa.BinOp)
+		if !ok {
+			continue
+		}
+		var other ssa.Value
+		switch {
+		case cmp.X == k:
+			other = cmp.Y
+		case cmp.Y == k:
+			other = cmp.X
+		default:
+			continue
+		}
+		if !isLenOfPending(other) {
+			continue
+		}
+		var holds *ssa.BasicBlock
+		switch cmp.Op {
+		case token.EQL:
+			holds = b.Succs[0]
+		case token.NEQ:
+			holds = b.Succs[1]
+		case token.LSS: // k < len: false edge means k >= len; with batch = q[:k] valid, k == len
+			if cmp.X == k {
+				holds = b.Succs[1]
+			}
+		case token.GEQ:
+			if cmp.X == k {
+				holds = b.Succs[0]
+			}
+		}
+		if holds == nil || len(holds.Preds) != 1 {
+			continue
+		}
+		if holds == st.Block() || holds.Dominates(st.Block()) {
+			return true
+		}
 	}
 	return false
 }
